@@ -162,6 +162,7 @@ pub fn run(ctx: &mut Ctx) {
     ctx.expect_nonzero("full_items_seen");
     ctx.expect_nonzero("raw_items_seen");
     ctx.expect_nonzero("buffer_boundary_docs");
+    ctx.expect_nonzero("size_boundary_docs");
     let cfgs = configs(ctx.quick());
     // Σ*
     let (shard, nshards) = (ctx.shard, ctx.nshards);
@@ -172,6 +173,7 @@ pub fn run(ctx: &mut Ctx) {
         !ctx.should_stop()
     });
     boundary_docs(ctx, &rs);
+    size_boundary_docs(ctx, &rs);
     // documents and their mutations
     let p = DocParams { max_nodes: doc_nodes, globals: vec![crate::spec::ID_TAG, crate::spec::ID_VOID], exclude: vec![], unknown_subsets: true, devs: 1, payload_classes: false, big_payloads: false, noncanonical: true, width_devs: true, extras: true, all_widths: false };
     // mutated size fields can declare gigabytes (legitimately allocated below the default 4 GB limit, see C17):
@@ -196,6 +198,50 @@ pub fn run(ctx: &mut Ctx) {
         }
         !ctx.should_stop()
     });
+}
+
+/// payload / content sizes of 2^(7k)-1 and neighbours, in minimal and in wider size fields
+fn size_boundary_docs(ctx: &mut Ctx, rs: &RefSpec) {
+    use crate::refmodel::{Kind, SizeEnc};
+    let mut k = 0u64;
+    for doc in docs::size_boundary_docs() {
+        let mut variants = vec![doc.clone()];
+        // the boundary element's size in a wider field
+        for w in [2u8, 3, 8] {
+            let mut d = doc.clone();
+            if let Kind::Master(ch) = &mut d[0].kind {
+                if ch[0].size == SizeEnc::Min {
+                    ch[0].size = SizeEnc::Width(w);
+                    variants.push(d);
+                }
+            }
+        }
+        for d in variants {
+            let mine = ctx.mine(k);
+            k += 1;
+            if !mine || !crate::refmodel::encodable(&d) {
+                continue;
+            }
+            let (bytes, _) = ref_encode(&d);
+            for cfg in [Cfg::strict().with_allow(ALLOW_IDS), Cfg::strict().with_allow(ALLOW_IDS).with_buffered(&[ID_ROOT, ID_M, ID_L])] {
+                let dd = || format!("size-boundary doc=[{}] ({} bytes) {}", docs::doc_short(rs, &d), bytes.len(), cfg.short());
+                if !ctx.enter(&dd) {
+                    continue;
+                }
+                ctx.count("size_boundary_docs", 1);
+                ctx.nontrivial();
+                let obs = parse_slice::<V>(&bytes, &cfg);
+                ctx.transitions += obs.items.len() as u64 + 1;
+                if !obs.clean() {
+                    ctx.violation("size-boundary/valid-document-does-not-parse", &dd, &obs.term.short());
+                } else if let Err((key, det)) = mirror_check(&bytes, &obs, rs, &cfg) {
+                    ctx.violation(&format!("size-boundary/{}", key), &dd, &det);
+                }
+                ctx.validated += 1;
+                ctx.leave();
+            }
+        }
+    }
 }
 
 fn boundary_docs(ctx: &mut Ctx, rs: &RefSpec) {
